@@ -24,6 +24,14 @@ def _day_after(date: Any) -> Any:
 
 
 class TJPTransformer(Transformer[Any, Any]):
+    def NUMBER(self, token: Any) -> Any:
+        """Numbers no float can hold ('9' * 400) are rejected here; further down they
+        would turn into infinity and surface as internal errors."""
+        import math
+
+        if len(token) > 300 and math.isinf(float(token)):
+            raise ValueError(f"number out of range: {token[:12]}... ({len(token)} digits)")
+        return token
 
     """Transform the parse tree into a dictionary structure."""
 
